@@ -12,6 +12,7 @@ import (
 	"sort"
 	"strings"
 	"sync"
+	"time"
 
 	"verifharness/abs"
 )
@@ -112,6 +113,8 @@ type Ctx struct {
 	Shard   int
 	NShards int
 	Only    *Coord // replay: run only this case
+	// Subsample > 1 runs only every Subsample-th case of each family (sanitizer builds)
+	Subsample int
 
 	mu       sync.Mutex
 	evals    int64
@@ -268,8 +271,13 @@ func (c *Ctx) Family(name string, n int, fn func(k *Case)) {
 		return
 	}
 	cnt := int64(0)
+	t0 := time.Now()
+	sub := c.Subsample
 	for i := 0; i < n; i++ {
 		if i%c.NShards != c.Shard {
+			continue
+		}
+		if sub > 1 && (uint64(i/c.NShards)*0x9e3779b97f4a7c15>>40)%uint64(sub) != 0 {
 			continue
 		}
 		run(i)
@@ -277,6 +285,7 @@ func (c *Ctx) Family(name string, n int, fn func(k *Case)) {
 	}
 	c.mu.Lock()
 	c.fams[name] += cnt
+	c.counters["family_ms_"+name] += time.Since(t0).Milliseconds()
 	c.mu.Unlock()
 }
 
